@@ -89,6 +89,7 @@ type world struct {
 	length    int64
 	seed      uint64
 	// what each remote has allowed, for the C11 checks
+	canFast     map[string]bool
 	outstanding map[string]map[[3]uint32]bool
 }
 
@@ -146,7 +147,7 @@ func (w *world) checkWire(name string) {
 					w.viol("C11", "request-while-choked", desc+": the peer is choking us and the piece is not allowed-fast")
 				}
 				key := [3]uint32{x.Index, x.Begin, x.Length}
-				if w.outstanding[name][key] {
+				if w.outstanding[name][key] && !w.cancelled[name][key] {
 					w.viol("C11", "request-duplicate", desc+": already outstanding at that peer")
 				}
 				w.outstanding[name][key] = true
@@ -191,8 +192,11 @@ func (w *world) settle(name string) {
 			held[[3]uint32{i, b, uint32(w.chunkLen(int(r.Index)))}] = true
 		}
 	}
+	// The remote's view is the remote's: a request leaves it when the remote has answered it (Piece, Reject), when we
+	// have cancelled it, or when a remote without the fast extension chokes us (see message) - not because the peer
+	// under test no longer remembers it.
 	for k := range w.outstanding[name] {
-		if !held[k] {
+		if !held[k] && w.cancelled[name][k] {
 			delete(w.outstanding[name], k)
 			delete(w.cancelled[name], k)
 		}
@@ -202,15 +206,23 @@ func (w *world) settle(name string) {
 // torHandle handles the oldest event peer name sent to the torrent.
 func (w *world) torHandle(name string) bool {
 	fp := w.peers[name]
-	select {
-	case e := <-fp.Tor:
-		tor.VerifHandleEvent(w.ctx, w.t, e)
-		if d, ok := e.(peer.TorData); ok && d.Complete {
-			w.awaitFinalise(d.Index)
+	for {
+		select {
+		case e := <-fp.Tor:
+			tor.VerifHandleEvent(w.ctx, w.t, e)
+			if d, ok := e.(peer.TorData); ok && d.Complete {
+				w.awaitFinalise(d.Index)
+			}
+			// The specification's torQ holds the events that matter to the bookkeeping (data, drop, bitmap, have).
+			// The real queue also carries notifications the specification does not speak of (unchoke, interest,
+			// activity, known peers ...): those are handled on the way, the step is the next event that it knows.
+			switch e.(type) {
+			case peer.TorData, peer.TorDrop, peer.TorPeerBitmap, peer.TorPeerHave:
+				return true
+			}
+		default:
+			return false
 		}
-		return true
-	default:
-		return false
 	}
 }
 
@@ -262,17 +274,27 @@ func (w *world) awaitFinalise(index uint32) {
 
 func (w *world) peerEvent(name string) bool {
 	fp := w.peers[name]
-	e, ok := fp.Pop()
-	if !ok {
-		return false
+	for {
+		e, ok := fp.Pop()
+		if !ok {
+			return false
+		}
+		err := peer.VerifHandleEvent(fp.P, e)
+		if err != nil {
+			w.out.Note = fmt.Sprintf("step %d: peer.handleEvent(%T): %v", w.step, e, err)
+		}
+		w.checkWire(name)
+		w.settle(name)
+		// as in torHandle: commands the specification does not speak of (interest, unchoke decisions ...) are
+		// handled on the way
+		switch e.(type) {
+		case peer.PeerRequest, peer.PeerCancel, peer.PeerCancelPiece, peer.PeerHave:
+			return true
+		}
+		if w.out.Note != "" {
+			return true
+		}
 	}
-	err := peer.VerifHandleEvent(fp.P, e)
-	if err != nil {
-		w.out.Note = fmt.Sprintf("step %d: peer.handleEvent(%T): %v", w.step, e, err)
-	}
-	w.checkWire(name)
-	w.settle(name)
-	return true
 }
 
 func (w *world) message(name string, m *Msg) {
@@ -283,6 +305,11 @@ func (w *world) message(name string, m *Msg) {
 		pm = protocol.Unchoke{}
 	case "choke":
 		pm = protocol.Choke{}
+		if !w.canFast[name] {
+			// a choke from a peer without the fast extension voids what it held
+			w.outstanding[name] = map[[3]uint32]bool{}
+			w.cancelled[name] = map[[3]uint32]bool{}
+		}
 	case "haveall":
 		pm = protocol.HaveAll{}
 	case "havenone":
@@ -468,7 +495,7 @@ func Replay(in []byte) any {
 		return &Out{Note: "bad scenario: " + err.Error()}
 	}
 	out := &Out{ID: sc.ID}
-	w := &world{out: out, ctx: context.Background(), peers: map[string]*fakepeer.Peer{}, outstanding: map[string]map[[3]uint32]bool{}, cancelled: map[string]map[[3]uint32]bool{}}
+	w := &world{out: out, ctx: context.Background(), peers: map[string]*fakepeer.Peer{}, outstanding: map[string]map[[3]uint32]bool{}, cancelled: map[string]map[[3]uint32]bool{}, canFast: map[string]bool{}}
 	w.seed = uint64(sc.ID)*13 + 7
 	w.psize = 2 * CS
 	w.length = 3*CS - 1000
@@ -517,6 +544,7 @@ func Replay(in []byte) any {
 		t.VerifAddPeer(fp.P)
 		w.peers[n] = fp
 		w.outstanding[n] = map[[3]uint32]bool{}
+		w.canFast[n] = sc.Steps[0].CanFast[n]
 		defer fp.Stop()
 	}
 	for k, st := range sc.Steps[1:] {
@@ -553,6 +581,7 @@ func Replay(in []byte) any {
 		if applied {
 			out.Applied++
 		}
+
 		if out.Note != "" {
 			return out
 		}
